@@ -287,7 +287,7 @@ func (g *gctx) scalar() vals.V {
 	case 3:
 		return vals.Bool(true)
 	default:
-		return vals.Str(rapid.SampledFrom([]string{"<script>alert(1)</script>", `"><img src=x>`, "a&b", "&lt;", "{{ x }}", "plain", "it's", "line one\r\nline two", "a\rb", "tab\there"}).Draw(g.t, "hs"))
+		return vals.Str(rapid.SampledFrom([]string{"<script>alert(1)</script>", `"><img src=x>`, "a&b", "&lt;", "{{ x }}", "plain", "it's", "line one\r\nline two", "a\rb", "tab\there", "", ""}).Draw(g.t, "hs"))
 	}
 }
 
@@ -336,7 +336,13 @@ func (g *gctx) attrs() string {
 					continue
 				}
 			}
-			sb.WriteString(" " + name + `="` + g.escText(g.decodedAttr("aL"), true) + "{{ " + h + " }}" + `"`)
+			// (an attribute made of the mustache alone stays an attribute when the value is
+			// empty: alt="" and a missing alt are different documents)
+			lead := ""
+			if rapid.IntRange(0, 2).Draw(g.t, "alead") != 0 {
+				lead = g.escText(g.decodedAttr("aL"), true)
+			}
+			sb.WriteString(" " + name + `="` + lead + "{{ " + h + " }}" + `"`)
 			continue
 		}
 		sb.WriteString(" " + name + `="` + g.escText(g.decodedAttr("av"), true) + `"`)
